@@ -146,7 +146,15 @@ def run(ctx: Ctx):
                      dict(job=j, argument=tabrun.arg_text(j), order_seed=sd, traceback=o.get('traceback')),
                      found_input=bool(o.get('repo')))
             continue
-        good.append((j, o, sd))
+        if 'raised' in o:
+            stats['exception'] += 1
+            if not o['viol']:
+                r = o['raised']
+                ctx.fail(f'C16:run-exception:{r["error"].split(":")[0]}:{r["where"]}', f'{j["logic"]}: the run raised {r["error"][:200]}',
+                         dict(job=j, argument=tabrun.arg_text(j), order_seed=sd, traceback=r.get('traceback')), found_input=bool(r.get('repo')))
+            o = dict(o, nevents=0, nstructs=0, valid=None, invalid=None, nbranches=0, rules=[], request=None)
+        else:
+            good.append((j, o, sd))
         ctx.count((j['logic'], tuple(j['premises']), j['conclusion'], json.dumps(j['opts'], sort_keys=True), j['mode'], j['max_steps'], sd))
         stats['runs'] += 1
         stats['prefixes_checked'] += o['nsteps'] + 1
